@@ -47,6 +47,12 @@ Proof.
   cbn [map]. split; constructor; try assumption. split; [rewrite Hl; reflexivity|exact Hb].
 Qed.
 
+Lemma run_parts_tied ops : forall s, Forall part_tied (snd (mux_run_parts s ops)).
+Proof.
+  induction ops as [|o r IH]; intros s; [constructor|].
+  rewrite mux_run_parts_cons. cbn [snd]. constructor; [apply step_part_tied|apply IH].
+Qed.
+
 Section Run.
 Variable D : list Descriptor -> list Z -> Prop.
 Hypothesis D_parse : desc_premises D.
@@ -473,4 +479,131 @@ Proof using D_parse D_write D_nil D_size.
       assert (Hlp : length (pa_pkts p) = (2 + length unit)%nat) by (rewrite Hpk, app_length, Htl; reflexivity). lia.
 Qed.
 
+
+(* ---------------- end of stream ---------------- *)
+
+Lemma drain_pending s pend pl pm : inv s pend pl pm -> drain_data full_parsers pm pl = Some (map snd pend).
+Proof using.
+  intros [Hms Hst Hso Hk Hpm Htab Hpids].
+  set (D' := fun y => match aget pend y with Some d => [d] | None => [] end).
+  assert (Hmem : forall y, qof pl y <> [] <-> aget pend y <> None).
+  { intros y. specialize (Hpids y). destruct (aget pend y) as [dat|]; cbn [pid_ok] in Hpids.
+    - destruct Hpids as (_ & q' & pe & -> & _). split; [discriminate|]. intros _. destruct q'; discriminate.
+    - rewrite Hpids. split; congruence. }
+  rewrite (drain_data_by_qof full_parsers pm D' pl Hso).
+  - f_equal. assert (Hp : pool_pids pl = map fst pend).
+    { apply sorted_same_members; [apply pool_pids_sorted, Hso|exact Hk|].
+      intros y. rewrite (pool_pids_in pl Hso y), Hmem. apply aget_in. }
+    rewrite Hp, flat_map_concat_map.
+    replace (map D' (map fst pend)) with (map (fun e : Z * DemuxerData => [snd e]) pend).
+    + clear. induction pend as [|e l IH]; [reflexivity|]. cbn [map concat app]. rewrite IH. reflexivity.
+    + unfold D'. rewrite <- (map_map (aget pend) (fun o => match o with Some d => [d] | None => []  end)).
+      rewrite (aget_map_snd pend Hk), map_map. reflexivity.
+  - intros k Hk0. specialize (Hpids k). unfold D'. apply Hmem in Hk0. destruct (aget pend k) as [dat|]; [|congruence].
+    destruct Hpids as (Hy & q' & pe & _ & _ & _ & Hp & _). apply Hp.
+    destruct (pm_mem pm k) eqn:E; [|reflexivity]. apply Hpm in E. destruct (es_pid_not_tables k Hy). congruence.
+Qed.
+
+(* ---------------- the whole history ---------------- *)
+
+Definition run_pkts (s : mstate) (ops : list mop) : list Packet := concat (map pa_pkts (snd (mux_run_parts s ops))).
+
+Theorem run_feed : forall ops s pend pl pm, inv s pend pl pm -> history_ok s pend ops ->
+  exists pl' pm' out (pend' : pendl),
+    feed full_parsers pl pm (map obs_pkt (run_pkts s ops)) = Some (pl', pm', out) /\
+    drain_data full_parsers pm' pl' = Some (map snd pend') /\
+    out ++ map snd pend' = expect s pend ops /\
+    Forall mux_wf (run_pkts s ops) /\
+    (length out + length pend' <= length pend + length (run_pkts s ops))%nat.
+Proof using D_parse D_write D_nil D_size.
+  induction ops as [|o r IH]; intros s pend pl pm Hinv Hok.
+  - exists pl, pm, [], pend. unfold run_pkts. cbn [mux_run_parts snd map concat feed expect app length].
+    split; [reflexivity|]. split; [apply (drain_pending s pend pl pm Hinv)|]. split; [reflexivity|]. split; [constructor|lia].
+  - cbn [history_ok] in Hok. unfold run_pkts. rewrite mux_run_parts_cons. cbn [snd map concat expect].
+    destruct (mux_step_part s o) as [s1 p] eqn:Estep. cbn [fst snd] in *. destruct Hok as [Hop Hok].
+    destruct (step_feed s pend pl pm o s1 p Hinv Estep Hop) as (pl1 & pm1 & Hf1 & Hinv1 & Hw1 & Hl1).
+    destruct (step_out s pend o p) as [out1 pend1] eqn:Eso. cbn [fst snd] in *.
+    destruct (IH s1 pend1 pl1 pm1 Hinv1 Hok) as (pl' & pm' & out2 & pend' & Hf2 & Hd & He & Hw2 & Hl2).
+    fold (run_pkts s1 r) in *.
+    exists pl', pm', (out1 ++ out2), pend'.
+    split; [rewrite map_app, (feed_app full_parsers _ _ _ _ _ _ _ Hf1), Hf2; reflexivity|].
+    split; [exact Hd|]. split; [rewrite <- app_assoc, He; reflexivity|].
+    split; [apply Forall_app; split; assumption|]. rewrite !app_length. lia.
+Qed.
+
 End Run.
+
+(* ---------------- NextData until ErrNoMorePackets on the bytes the Muxer wrote ---------------- *)
+
+(* the results of the successive NextData calls (packet size 188 given, seekable reader) up to ErrNoMorePackets *)
+Definition demux_all (bytes : list Z) : list (res DemuxerData) :=
+  nd_all full_parsers (3 * length bytes + 8) (init_dstate (new_reader bytes None Seekable) 188).
+
+Lemma run_bytes ops : forall s,
+  concat (map mout_bytes (snd (mux_run s ops))) = concat (map pkt_bytes (run_pkts s ops)).
+Proof.
+  intros s. destruct (mux_run_parts_out ops s) as [_ ->]. unfold run_pkts.
+  pose proof (run_parts_tied ops s) as Ht. induction (snd (mux_run_parts s ops)) as [|p l IH]; [reflexivity|].
+  inversion Ht as [|? ? [Hp _] Hl]; subst. cbn [map concat]. rewrite map_app, concat_app, <- (IH Hl). f_equal.
+  unfold mout_bytes, mout_of_part. cbn [mo_groups]. rewrite concat_concat_map, Hp. reflexivity.
+Qed.
+
+Section Top.
+Variable D : list Descriptor -> list Z -> Prop.
+Hypothesis D_parse : desc_premises D.
+Hypothesis D_write : forall ds bytes, D ds bytes -> desc_bytes ds bytes.
+Hypothesis D_nil : D [] [].
+Hypothesis D_size : forall ds bytes, D ds bytes ->
+  fold_left (fun k d => k + (2 + calc_descriptor_length d)) ds 0 = Z.of_nat (length bytes).
+
+Lemma inv_init period : inv D (new_muxer period) [] [] [].
+Proof using.
+  constructor.
+  - apply new_muxer_inv.
+  - constructor.
+  - exact I.
+  - constructor.
+  - intros y Hy. discriminate Hy.
+  - split; reflexivity.
+  - intros y. reflexivity.
+Qed.
+
+(* C01: demultiplexing what the Muxer wrote over a whole history yields exactly the expected data, all Ok *)
+Theorem roundtrip_history period ops :
+  history_ok D (new_muxer period) [] ops ->
+  demux_all (concat (map mout_bytes (snd (mux_run (new_muxer period) ops)))) = map Ok (expect (new_muxer period) [] ops).
+Proof using D_parse D_write D_nil D_size.
+  intros Hok.
+  destruct (run_feed D D_parse D_write D_nil D_size ops (new_muxer period) [] [] [] (inv_init period) Hok)
+    as (pl' & pm' & out & pend' & Hf & Hd & He & Hw & Hl).
+  set (pkts := run_pkts (new_muxer period) ops) in *.
+  destruct (pkts_seen pkts Hw) as [Hb Hp].
+  rewrite run_bytes. fold pkts. set (bufs := map pkt_bytes pkts) in *.
+  assert (Hy : yields full_parsers (init_dstate (new_reader (concat bufs) None Seekable) 188) (out ++ map snd pend')).
+  { exists bufs, (map obs_pkt pkts), pl', pm', out, (map snd pend').
+    split; [apply init_at_bufs, Hb|]. split; [exact Hp|]. split; [exact Hf|]. split; [exact Hd|reflexivity]. }
+  unfold demux_all. rewrite (nd_all_yields full_parsers _ _ _ Hy).
+  - rewrite He. reflexivity.
+  - rewrite app_length, map_length. pose proof (concat_length_188 bufs Hb) as Hlen. unfold bufs in Hlen at 2. rewrite map_length in Hlen.
+    cbn [length] in Hl. lia.
+Qed.
+
+End Top.
+
+(* ---------------- the descriptor domain: streams without descriptors ---------------- *)
+
+Lemma no_desc_write ds bytes : no_desc16 ds bytes -> desc_bytes ds bytes.
+Proof.
+  intros [-> ->]. split.
+  - split; [constructor|]. split; [reflexivity|]. exists []. split; [reflexivity|constructor].
+  - exists []. split; reflexivity.
+Qed.
+
+Lemma no_desc_size ds bytes : no_desc16 ds bytes ->
+  fold_left (fun k d => k + (2 + calc_descriptor_length d)) ds 0 = Z.of_nat (length bytes).
+Proof. intros [-> ->]. reflexivity. Qed.
+
+Theorem roundtrip_history_nodesc period ops :
+  history_ok no_desc16 (new_muxer period) [] ops ->
+  demux_all (concat (map mout_bytes (snd (mux_run (new_muxer period) ops)))) = map Ok (expect (new_muxer period) [] ops).
+Proof. apply (roundtrip_history no_desc16 no_desc_premises no_desc_write (conj eq_refl eq_refl) no_desc_size). Qed.
